@@ -3,7 +3,8 @@
 Monitor: (a) counting sources under shuffle_buffer / round_robin (+ async variants) / LazyPool measure
 "pulled minus yielded" at every yield, at stream lengths N, 10N and infinite; (b) on datasets the number
 of shard reads started (counting wrappers on the per-shard read functions; FIFO-gate releases for the Rust
-threads) is compared with the shards needed for the k examples taken, for finite datasets of two sizes
+threads; the kernel's own open events on the shard files via inotify, which also see TensorFlow's native
+TFRecord readers) is compared with the shards needed for the k examples taken, for finite datasets of two sizes
 and for repeating (infinite) streams, with slow and fast consumers.  Decision: read-ahead <= 4(b+T)+16 and
 independent of the stream length; exact maxima are reported but do not decide (a retuned prefetch
 constant is not an alarm).  A memory guard turns an unbounded materialisation into a diagnosed exit.
@@ -27,13 +28,15 @@ WORKERS = 14
 CASE_TIMEOUT = 150
 QUIESCENCE_SCOPE = "process"   # helpers are polling feeders only
 QUIESCENCE_AFTER = 60.0
-REQUIRED_OBS = ["iterator_measurements", "dataset_measurements", "infinite_streams_taken", "rust_measurements"]
+REQUIRED_OBS = ["iterator_measurements", "dataset_measurements", "infinite_streams_taken", "rust_measurements",
+                "kernel_open_measurements", "native_tfrecord_measurements"]
 RULE = ("paths {shuffle_buffer, shuffle_buffer_async, round_robin, round_robin_async, LazyPool, dataset-level sync / "
         "concurrent unshuffled / concurrent shuffled / async / Rust / tf.data-generator} x buffer b x threads T x stream "
         "length {N, 10N, infinite} x take-count k x consumer speed. Distinct = (path, b, T, length class, k class, "
         "consumer); non-trivial iff the stream is longer than k + bound.")
 ASSUMPTIONS = ["under-observation under load can only miss a violation, never invent one",
-               "TensorFlow's native TFRecord pipeline (its own prefetching) is not measured"]
+               "TensorFlow's native TFRecord pipeline is measured by the kernel's open events only (inotify), a quarter "
+               "of a second after the consumer stopped taking"]
 MEMORY_LIMIT = 6 * 1024 ** 3
 EXIT_MEMORY = 97
 
@@ -254,6 +257,7 @@ def run_dataset(case: dict) -> dict:
     from sedpack.io import Dataset
     from rtmon import ds as dsmod, readers
     from rtmon.monitors.fifo_gate import Gate
+    from rtmon.monitors.inotify import OpenWatcher
     fmt, eps, T, shuffle, k = case["fmt"], case["eps"], case["T"], case["shuffle"], case["k"]
     rng = random.Random(case["seed"])
     slow = case["consumer"] == "slow"
@@ -265,8 +269,9 @@ def run_dataset(case: dict) -> dict:
         needed = math.ceil(k / eps)
         sizes = {"S": needed + allowed_ahead + 6, "4S": 4 * (needed + allowed_ahead + 6)}
         comp = {"fb": "LZ4", "npz": "", "tfrec": ""}[fmt]
-        ifaces = [i for i in readers.interfaces_for(fmt, comp) if not (i == "tfds" and fmt == "tfrec")]
+        ifaces = list(readers.interfaces_for(fmt, comp))
         measured: dict = {}
+        opens_per_read: dict = {}
         for size_name, n_shards in sizes.items():
             root = work / f"ds_{size_name}"
             dataset = dsmod.create(root, fmt, comp, eps)
@@ -290,11 +295,32 @@ def run_dataset(case: dict) -> dict:
                             opened = len(gate.log)
                             obs["rust_measurements"] += 1
                         else:
-                            with ShardReadCounter() as counter:
+                            # two independent observers: wrappers on the per-shard read functions, and the
+                            # kernel's own record of opens of the shard files (inotify), which also sees
+                            # TensorFlow's native TFRecord readers and any read that bypasses the wrappers
+                            native = iface == "tfds" and fmt == "tfrec"
+                            shard_files = [root / s.file_infos[0].file_path for s in dataset.shard_info_iterator("train")]
+                            with OpenWatcher(shard_files) as watcher, ShardReadCounter() as counter:
                                 taken = take(dataset, iface, shuffle, repeat, k, slow, kwargs)
-                                time.sleep(0.05)
+                                time.sleep(0.25 if native else 0.05)
                                 opened = counter.count
+                                events = list(watcher.drain())
                                 closer()
+                            if watcher.overflow:
+                                obs["inotify_overflow"] += 1
+                            else:
+                                files = len(set(events))
+                                if not repeat and files:
+                                    # a finite pass reads a shard at most once: events per file = opens per read
+                                    opens_per_read[iface] = max(1, len(events) // files)
+                                kernel = files if not repeat else math.ceil(len(events) / opens_per_read.get(iface, 1))
+                                obs["kernel_open_measurements"] += 1
+                                obs["kernel_open_events"] += len(events)
+                                if native:
+                                    obs["native_tfrecord_measurements"] += 1
+                                elif kernel != opened:
+                                    obs["kernel_and_wrapper_counts_differ"] += 1
+                                opened = max(opened, kernel)
                     except Exception as exc:  # pylint: disable=broad-exception-caught
                         violations.append({"key": f"take-raised/{iface}", "msg": f"{label}: {type(exc).__name__}: {str(exc)[:200]}"})
                         continue
